@@ -671,6 +671,18 @@ class JinjaAnalyzer:
                     )
                 str_buff = ""
                 str_parts = []
+        if str_buff:
+            # Jinja's lexer returns quietly when a comment opens at the very
+            # end of the file (e.g. a trailing "{#"), and renders nothing for
+            # it. Track what's left as a comment so that the raw slices
+            # still cover the whole of the source.
+            self.raw_sliced.append(
+                RawFileSlice(str_buff, "comment", self.idx_raw, block_idx)
+            )
+            self.raw_slice_info[self.raw_sliced[-1]] = self.make_raw_slice_info(
+                None, None
+            )
+            self.idx_raw += len(str_buff)
         return self._get_jinja_tracer(
             self.raw_str,
             self.raw_sliced,
